@@ -9,7 +9,7 @@ PROP = 'C11'
 
 def prof(seed):
     k = seed % 3
-    base = dict(p_default=0.6, p_twodot=0.3, p_subdir=0.3, p_flag=0.05, p_opt=0.0, p_watch=0.05, p_phony=0.08, p_multi=0.3)
+    base = dict(p_default=0.6, p_twodot=0.3, p_subdir=0.3, p_flag=0.05, p_opt=0.0, p_watch=0.05, p_phony=0.08, p_multi=0.3, user_symlinks=True)
     ops = dict(uwrite=6, urm=4, build=9, repeat=2, force=2, edit_r=2, rm=1, doedit=1)
     if k == 0:
         return gen.profile(ntgt=(2, 6), ops=ops, **base)
